@@ -267,6 +267,24 @@ def c04_sweep(ctx, n):
         if not ok:
             fails.append({"key": f"sensor-frame:{cls}:{kind}", "desc": "sensor output differs from the back-rotated global field at its pixels",
                           "replay": {"class": cls, "kind": kind, "pixel_shape": shape, "left": left}})
+        # a MIXED observer list: bare position arrays of the same shape but different values next to a sensor — every entry is read at
+        # its own positions (bare arrays are sensors at the origin), in every call form, with and without pixel_agg
+        if i % 3 == 1:
+            pa, pb = far_points(nps, 2, lo=5, hi=8), far_points(nps, 2, lo=5, hi=8)
+            # (a list of position arrays ALONE is one observer with a larger pixel shape: documented; a sensor in the list makes every entry its own observer)
+            for obs_list in ([pa, sens, pb], [pa, pb, sens], [sens, pb, pa]):
+                if pixel is None or np.shape(sens.pixel) != (2, 3):
+                    continue
+                for form in ("top", "method"):
+                    got = magpy.getB(src, obs_list, squeeze=False) if form == "top" else src.getB(*obs_list, squeeze=False)
+                    kinds["mixed-observers"] = kinds.get("mixed-observers", 0) + 1
+                    for k_, o_ in enumerate(obs_list):
+                        want = magpy.getB(src, o_, squeeze=False)[:, :, 0]
+                        mm_ = min(got.shape[1], want.shape[1])
+                        if not _close(got[:, :mm_, k_], want[:, :mm_], float(np.max(np.abs(want))) + 1e-300, 1e-9):
+                            fails.append({"key": "observer-entries:mixed-list", "desc": f"getB(src, [array, sensor, array]) ({form} form): entry {k_} is not the field at that entry's own positions",
+                                          "replay": {"class": cls, "entry": k_, "form": form, "list": ["array" if isinstance(x_, np.ndarray) else "sensor" for x_ in obs_list]}})
+                            break
         # pixel_agg with different pixel shapes
         if i % 3 == 0:
             s2 = magpy.Sensor(position=far_points(nps, 1, lo=5, hi=8)[0], pixel=nps.uniform(-0.3, 0.3, (3, 3)))
@@ -366,6 +384,28 @@ def c05_sweep(ctx, n):
         if not ok:
             fails.append({"key": "superposition", "desc": "collection / sumup result differs from the explicit sum of single-source calls",
                           "replay": {"entries": [repr(e) for e in entries], "field": field}})
+        # line currents of very different strength with different vertex counts in one call (a 10 kA busbar next to a microampere
+        # trace): every row is that source's own field on ITS OWN scale, and linear in its own current — whatever stands before it
+        if i % 4 == 2:
+            from magpylib import current as _cur
+            strong = _cur.Polyline(vertices=nps.uniform(-1, 1, (rng.choice([2, 3, 4]), 3)), current=10.0 ** nps.uniform(3, 5))
+            weak = _cur.Polyline(vertices=nps.uniform(-1, 1, (rng.choice([5, 6, 7]), 3)) + np.array([3.0, 0, 0]), current=10.0 ** nps.uniform(-7, -5))
+            pts = far_points(nps, 3, lo=4, hi=7)
+            order = [strong, weak] if rng.random() < 0.7 else [weak, strong]
+            both = get(order, pts, squeeze=False)
+            okr = True
+            for k_, e_ in enumerate(order):
+                own = get(e_, pts, squeeze=False)[0]
+                if not np.allclose(both[k_], own, rtol=1e-9, atol=1e-12 * float(np.max(np.abs(own)))):
+                    okr = False
+            w2 = weak.copy(current=weak.current * 3.0)
+            r3 = get([strong, w2], pts, squeeze=False)[1]
+            r1 = get([strong, weak], pts, squeeze=False)[1]
+            if not np.allclose(r3, 3.0 * r1, rtol=1e-9, atol=1e-12 * float(np.max(np.abs(r1)))):
+                okr = False
+            if not okr:
+                fails.append({"key": "superposition:ragged-polylines:strong-weak", "desc": "two Polylines with different vertex counts and currents 10 orders of magnitude apart in one call: "
+                              "a row is not that source's own field (relative to its own size) or not linear in its own current", "replay": {"field": field, "strong_current": float(strong.current), "weak_current": float(weak.current), "order": [len(o_.vertices) for o_ in order]}})
         # several bodies of the SAME geometry (copies placed elsewhere) with different polarization, next to each other in one call
         # (list, Collection, sumup), observers inside each of them: superposition and linearity in each body's own polarization
         if i % 4 == 1:
